@@ -427,7 +427,7 @@ func (p *Prog) ghostVerdict(fn *ssa.Function, spec *ghostSpec) *ghostRun {
 		r.done = map[string]bool{}
 		r.Finds = nil
 		r.Events = 0
-		r.run(fn, false, spec.ResultIdx, true, 0)
+		r.run(fn, false, spec.ResultIdx, true, 0, nil)
 		if !r.grew || r.Undec != "" {
 			return r
 		}
@@ -438,8 +438,8 @@ func (p *Prog) ghostVerdict(fn *ssa.Function, spec *ghostSpec) *ghostRun {
 
 // run interprets fn from its entry with the given ghost-in; returns the outcome set. For the root, returns with the
 // ghost bit set are checked against the spec.
-func (r *ghostRun) run(fn *ssa.Function, ghostIn bool, resIdx int, root bool, depth int) []ghostOutcome {
-	mk := fmt.Sprintf("%s|%v|%d", funcKey(fn), ghostIn, resIdx)
+func (r *ghostRun) run(fn *ssa.Function, ghostIn bool, resIdx int, root bool, depth int, binds map[ssa.Value]*ssa.Function) []ghostOutcome {
+	mk := fmt.Sprintf("%s|%v|%d|%s", funcKey(fn), ghostIn, resIdx, bindsKey(binds))
 	if !root {
 		if r.done[mk] || r.active[mk] {
 			return r.memo[mk] // recursion: the current approximation (grows over the rounds)
@@ -468,7 +468,7 @@ func (r *ghostRun) run(fn *ssa.Function, ghostIn bool, resIdx int, root bool, de
 			break
 		}
 		// a block may fork into several states at events/calls: process with an explicit list
-		r.execBlock(fn, s, 0, resIdx, root, depth, outs, &work)
+		r.execBlock(fn, s, 0, resIdx, root, depth, outs, &work, binds)
 	}
 	var res []ghostOutcome
 	for o := range outs {
@@ -524,7 +524,7 @@ func (s *ghostState) eval(v ssa.Value) tri {
 	return triTop
 }
 
-func (r *ghostRun) execBlock(fn *ssa.Function, s *ghostState, from int, resIdx int, root bool, depth int, outs map[ghostOutcome]bool, work *[]*ghostState) {
+func (r *ghostRun) execBlock(fn *ssa.Function, s *ghostState, from int, resIdx int, root bool, depth int, outs map[ghostOutcome]bool, work *[]*ghostState, binds map[ssa.Value]*ssa.Function) {
 	b := s.blk
 	for i := from; i < len(b.Instrs); i++ {
 		in := b.Instrs[i]
@@ -557,7 +557,7 @@ func (r *ghostRun) execBlock(fn *ssa.Function, s *ghostState, from int, resIdx i
 				if val == badWhen {
 					n.ghost = true
 				}
-				r.execBlock(fn, n, i+1, resIdx, root, depth, outs, work)
+				r.execBlock(fn, n, i+1, resIdx, root, depth, outs, work, binds)
 			}
 			return
 		}
@@ -578,14 +578,14 @@ func (r *ghostRun) execBlock(fn *ssa.Function, s *ghostState, from int, resIdx i
 				s.env[v] = s.evalInstr(in)
 			}
 		case *ssa.Call:
-			if forks := r.evalCall(x, s, depth); forks != nil {
+			if forks := r.evalCall(x, s, depth, binds); forks != nil {
 				for _, o := range forks {
 					n := s.fork()
 					n.ghost = o.Ghost
 					if isTracked(x.Type()) {
 						n.env[x] = o.Res
 					}
-					r.execBlock(fn, n, i+1, resIdx, root, depth, outs, work)
+					r.execBlock(fn, n, i+1, resIdx, root, depth, outs, work, binds)
 				}
 				return
 			}
@@ -705,7 +705,7 @@ func (s *ghostState) evalInstr(in ssa.Instruction) tri {
 }
 
 // evalCall: outcomes of a call that matters for the ghost bit; nil = opaque (no effect on the ghost bit).
-func (r *ghostRun) evalCall(c *ssa.Call, s *ghostState, depth int) []ghostOutcome {
+func (r *ghostRun) evalCall(c *ssa.Call, s *ghostState, depth int, binds map[ssa.Value]*ssa.Function) []ghostOutcome {
 	cal := calleeOf(c)
 	if cal != nil && cal.Pkg != nil && cal.Pkg.Pkg.Path() == "slices" && (cal.Name() == "ContainsFunc" || strings.HasPrefix(cal.Name(), "ContainsFunc[")) && len(c.Call.Args) == 2 {
 		if f := closureFn(c.Call.Args[1]); f != nil && r.containsEvent(f, depth+1) {
@@ -718,16 +718,37 @@ func (r *ghostRun) evalCall(c *ssa.Call, s *ghostState, depth int) []ghostOutcom
 		}
 	}
 	if cal == nil {
-		// call of a closure value created here
-		if f := closureFn(c.Call.Value); f != nil && r.containsEvent(f, depth+1) {
-			return r.run(f, s.ghost, boolResultIndex(f), false, depth+1)
+		// call of a closure value created here, or of a function-typed parameter bound to a closure by the caller
+		f := closureFn(c.Call.Value)
+		if f == nil && binds != nil {
+			f = binds[c.Call.Value]
+		}
+		if f != nil && r.containsEvent(f, depth+1) {
+			return r.run(f, s.ghost, boolResultIndex(f), false, depth+1, nil)
 		}
 		return nil
 	}
 	if !strings.HasPrefix(funcPkgPath(cal), modPath) || !r.containsEvent(cal, depth+1) {
 		return nil
 	}
-	return r.run(cal, s.ghost, boolResultIndex(cal), false, depth+1)
+	// closures handed to the callee are bound to its parameters (they run when the callee calls the parameter)
+	var nb map[ssa.Value]*ssa.Function
+	for i, a := range c.Call.Args {
+		if i >= len(cal.Params) {
+			break
+		}
+		f := closureFn(a)
+		if f == nil && binds != nil {
+			f = binds[a]
+		}
+		if f != nil {
+			if nb == nil {
+				nb = map[ssa.Value]*ssa.Function{}
+			}
+			nb[cal.Params[i]] = f
+		}
+	}
+	return r.run(cal, s.ghost, boolResultIndex(cal), false, depth+1, nb)
 }
 
 // containsFuncOutcomes models slices.ContainsFunc(s, f): f is applied to the elements in order until it answers true.
@@ -743,7 +764,7 @@ func (r *ghostRun) containsFuncOutcomes(f *ssa.Function, ghostIn bool, depth int
 		}
 		seen[g] = true
 		outs[ghostOutcome{g, triF}] = true // no (further) element
-		for _, o := range r.run(f, g, boolResultIndex(f), false, depth+1) {
+		for _, o := range r.run(f, g, boolResultIndex(f), false, depth+1, nil) {
 			switch o.Res {
 			case triT:
 				outs[ghostOutcome{o.Ghost, triT}] = true
@@ -863,4 +884,16 @@ func (p *Prog) ghostForall(fn *ssa.Function, event func(ssa.Instruction) (ssa.Va
 		return false, "", ghostWhy(p, run)
 	}
 	return true, "", fmt.Sprintf("%d abstract states, every failing element forces the answer %s", run.States, bad)
+}
+
+func bindsKey(b map[ssa.Value]*ssa.Function) string {
+	if len(b) == 0 {
+		return ""
+	}
+	var ks []string
+	for p, f := range b {
+		ks = append(ks, p.Name()+"="+funcKey(f))
+	}
+	sort.Strings(ks)
+	return strings.Join(ks, ",")
 }
